@@ -298,7 +298,8 @@ class C02(Check):
                 if cn.lower() in used or cn.lower() in M.KEYWORDS or cn.upper() == nm:
                     continue
                 used.add(cn.lower())
-                kind = rng.choice(['short', 'int', 'long', 'float', 'double', 'char', 'chararr', 'numarr', 'enum', 'charvar'])
+                kind = rng.choice(['short', 'int', 'long', 'float', 'double', 'char', 'chararr', 'numarr', 'enum', 'charvar',
+                                   'chararrvar'])
                 if kind == 'enum' and not enums:
                     kind = 'int'
                 if kind == 'numarr':
@@ -307,6 +308,9 @@ class C02(Check):
                     cols.append({'name': cn, 'type': 'char', 'alen': 0, 'clen': rng.randint(1, 12)})
                 elif kind == 'charvar':
                     cols.append({'name': cn, 'type': 'char', 'alen': 0, 'clen': -1})
+                elif kind == 'chararrvar':
+                    # an array of strings of open length, `char words[3][]`: sized by the longest string anywhere in the column
+                    cols.append({'name': cn, 'type': 'char', 'alen': rng.randint(1, 3), 'clen': -1})
                 elif kind == 'chararr':
                     cols.append({'name': cn, 'type': 'char', 'alen': rng.randint(1, 3), 'clen': rng.randint(1, 8)})
                 elif kind == 'enum':
@@ -350,8 +354,10 @@ class C02(Check):
                 rows.append(row)
             # char[] columns need one non-empty value; a scalar string in the last column must not end in a backslash
             for ci, c in enumerate(cols):
-                if c['type'] == 'char' and c['clen'] == -1 and all(len(r[ci]) == 0 for r in rows):
+                if c['type'] == 'char' and c['clen'] == -1 and not c['alen'] and all(len(r[ci]) == 0 for r in rows):
                     rows[0][ci] = 'v'
+                if c['type'] == 'char' and c['clen'] == -1 and c['alen'] and all(len(x) == 0 for r in rows for x in r[ci]):
+                    rows[0][ci][0] = 'v'
             if cols[-1]['type'] == 'char' and not cols[-1]['alen']:
                 for r in rows:
                     r[-1] = r[-1].rstrip('\\')
